@@ -2,8 +2,9 @@
 (***************************************************************************)
 (* The scanner as a maximal-munch tokeniser over characters (C14).         *)
 (*                                                                         *)
-(* A text is a sequence of one-character strings; "HI" and "CT" stand for  *)
-(* one byte >= 0x80 and one control byte.  The rule table is a hand        *)
+(* A text is a sequence of one-character strings; "HI", "CT" and "NUL"     *)
+(* stand for one byte >= 0x80, one control byte and the zero byte (a byte  *)
+(* like any other: an unknown character).  The rule table is a hand        *)
 (* transcription of the vocabulary of lexer.l frozen at the pinned commit  *)
 (* (it is deliberately NOT derived from lexer.l by a script: a change of   *)
 (* lexer.l must show up as a deviation).  NextTok picks the longest match, *)
@@ -88,8 +89,8 @@ Covered(R, s, i, acc) ==
 \* ---------- enumerator 1: all short strings over the significant alphabet -----------------------------
 MaxLen == atoi(IOEnv.LEXLEN)
 AlphaSet == IF IOEnv.LEXALPHA = "small"
-            THEN SetOf("inEdD_01 /:=!<P$;a") \cup {"\n", "\"", "HI"}
-            ELSE SetOf("inINfdoDOeEx_019 /:=!<>P$#;,()+-aAvVpt") \cup {"\n", "\t", "\"", "HI", "CT"}
+            THEN SetOf("inEdD_01 /:=!<P$;a") \cup {"\n", "\"", "HI", "NUL"}
+            ELSE SetOf("inINfdoDOeEx_019 /:=!<>P$#;,()+-aAvVpt") \cup {"\n", "\t", "\"", "HI", "CT", "NUL"}
 VARIABLES s, done, rules,      \* rules: the table, carried in a variable because TLC re-evaluates definitions on every use
           fi, fj, fk           \* enumerator 2
 lvars == <<s, done, rules, fi, fj, fk>>
